@@ -23,6 +23,7 @@ func runC03(w *World) *Result {
 	r.Rule("R-C03-range", "range loop: index from 0, index < len(same iterable), ++ on the same variable, element read first", 5)
 	r.Rule("R-C03-arity", "helper call templates pass exactly the positional arguments the helper body reads", 5)
 	r.Rule("R-C03-dvc", "array counter incremented before the array name is formed; one global counter name", 2)
+	r.Rule("R-C03-scratch", "a helper keeps no state in a non-local variable that a helper it calls assigns", 1)
 	c03ParserSubscript(w, r)
 	c03Range(w, r)
 	for _, role := range []string{"bash", "batch"} {
@@ -34,6 +35,7 @@ func runC03(w *World) *Result {
 		c03Affine(w, b, r)
 		c03Arity(w, b, r)
 		c03Dvc(w, b, r)
+		c03Scratch(w, b, r)
 	}
 	return r
 }
@@ -706,4 +708,194 @@ func bashSubstringParts(txt string) (string, string, bool) {
 		}
 	}
 	return "", "", false
+}
+
+// c03Scratch: a helper that calls another helper must not read, after the call, a variable it
+// set before the call when the callee (or anything the callee calls) assigns that variable
+// without declaring it local.  Order is judged on the helper's line sequence; inside a loop
+// region (for/while … done; :label … goto :label) the order is cyclic.
+func c03Scratch(w *World, b *Backend, r *Result) {
+	rule := "R-C03-scratch"
+	type hfacts struct {
+		assign, use []map[string]bool
+		calls       [][]string
+		locals      map[string]bool
+		region      [][2]int
+	}
+	reAssign := regexp.MustCompile(`(?:^|[ ;(])(local )?([A-Za-z_][A-Za-z0-9_]*)(?:\+\+|=)`)
+	reUse := regexp.MustCompile(`\$\{?#?([A-Za-z_][A-Za-z0-9_]*)`)
+	reArith := regexp.MustCompile(`([A-Za-z_][A-Za-z0-9_]*)(?:=|<|>|\+\+|--)`)
+	reSet := regexp.MustCompile(`set (?:/[AaPp] )?"?([A-Za-z_][A-Za-z0-9_]*)=`)
+	facts := map[string]*hfacts{}
+	for h, lines := range b.Helpers {
+		f := &hfacts{locals: map[string]bool{}}
+		var open []int
+		labels := map[string]int{}
+		for i, l := range lines {
+			a, u := map[string]bool{}, map[string]bool{}
+			txt, _ := flattenPUA(l.Variant)
+			trim := strings.TrimSpace(txt)
+			if b.Role == "bash" {
+				for _, m := range reAssign.FindAllStringSubmatch(txt, -1) {
+					if m[1] != "" {
+						f.locals[m[2]] = true
+					}
+					a[m[2]] = true
+				}
+				for _, m := range reUse.FindAllStringSubmatch(txt, -1) {
+					u[m[1]] = true
+				}
+				if strings.HasPrefix(trim, "for ((") || strings.HasPrefix(trim, "for((") {
+					for _, m := range reArith.FindAllStringSubmatch(txt[strings.Index(txt, "(("):], -1) {
+						a[m[1]] = true
+						u[m[1]] = true
+					}
+				}
+				if strings.HasPrefix(trim, "for ") || strings.HasPrefix(trim, "while ") || strings.HasPrefix(trim, "until ") {
+					open = append(open, i)
+				}
+				if trim == "done" || strings.HasSuffix(trim, "; done") || strings.HasPrefix(trim, "done ") || strings.HasPrefix(trim, "done;") {
+					if n := len(open); n > 0 {
+						f.region = append(f.region, [2]int{open[n-1], i})
+						open = open[:n-1]
+					}
+				}
+			} else if l.Batch != nil {
+				for _, m := range reSet.FindAllStringSubmatch(txt, -1) {
+					a[m[1]] = true
+				}
+				for _, n := range l.Batch.Delayed {
+					u[n] = true
+				}
+				for _, n := range l.Batch.Percent {
+					u[n] = true
+				}
+				if l.Batch.LabelDef != "" {
+					labels[l.Batch.LabelDef] = i
+				}
+				for _, g := range l.Batch.Gotos {
+					if at, ok := labels[strings.TrimPrefix(g, ":")]; ok {
+						f.region = append(f.region, [2]int{at, i})
+					}
+				}
+			}
+			f.assign = append(f.assign, a)
+			f.use = append(f.use, u)
+			var cs []string
+			for _, c := range invokedHelpers(b, l) {
+				if c != h {
+					cs = append(cs, c)
+				}
+			}
+			f.calls = append(f.calls, cs)
+		}
+		facts[h] = f
+	}
+	// variables a helper (transitively) assigns without declaring them local
+	clobbers := func(h string) map[string]string {
+		out := map[string]string{}
+		var walk func(c string, seen map[string]bool)
+		walk = func(c string, seen map[string]bool) {
+			if seen[c] || facts[c] == nil {
+				return
+			}
+			seen[c] = true
+			for i, a := range facts[c].assign {
+				for v := range a {
+					if !facts[c].locals[v] {
+						out[v] = c
+					}
+				}
+				for _, n := range facts[c].calls[i] {
+					walk(n, seen)
+				}
+			}
+		}
+		walk(h, map[string]bool{})
+		return out
+	}
+	var hs []string
+	for h := range b.Helpers {
+		hs = append(hs, h)
+	}
+	sort.Strings(hs)
+	for _, h := range hs {
+		f := facts[h]
+		n := len(f.assign)
+		pos := "-"
+		if n > 0 {
+			pos = w.Pos(b.Helpers[h][0].Em.Pos)
+		}
+		var callees []string
+		var clash []string
+		for j := 0; j < n; j++ {
+			for _, c := range f.calls[j] {
+				callees = append(callees, c)
+				// the innermost loop region holding the call
+				reg := [2]int{-1, -1}
+				for _, rg := range f.region {
+					if rg[0] <= j && j <= rg[1] && (reg[0] < 0 || rg[1]-rg[0] < reg[1]-reg[0]) {
+						reg = rg
+					}
+				}
+				// outermost for the cyclic order
+				for _, rg := range f.region {
+					if rg[0] <= j && j <= rg[1] && rg[0] <= reg[0] && rg[1] >= reg[1] {
+						reg = rg
+					}
+				}
+				var order []int
+				if reg[0] >= 0 {
+					for k := j + 1; k <= reg[1]; k++ {
+						order = append(order, k)
+					}
+					for k := reg[0]; k <= j; k++ {
+						order = append(order, k)
+					}
+					for k := reg[1] + 1; k < n; k++ {
+						order = append(order, k)
+					}
+				} else {
+					for k := j + 1; k < n; k++ {
+						order = append(order, k)
+					}
+				}
+				for v, by := range clobbers(c) {
+					if f.locals[v] && b.Role == "bash" {
+						// bash locals are dynamically scoped: a callee assigning the name
+						// without its own local still writes the caller's variable
+					}
+					// does the caller set v on a line that can precede the call?
+					pre := false
+					for i := 0; i < n; i++ {
+						if f.assign[i][v] && (i < j || (reg[0] >= 0 && i <= reg[1])) {
+							pre = true
+						}
+					}
+					if !pre {
+						continue // result variable of the callee, read on purpose
+					}
+					for _, k := range order {
+						if f.use[k][v] {
+							clash = append(clash, fmt.Sprintf("%s (set by %s, read again on line %d after the call on line %d)", v, by, k+1, j+1))
+							break
+						}
+						if f.assign[k][v] {
+							break
+						}
+					}
+				}
+			}
+		}
+		if len(callees) == 0 {
+			continue
+		}
+		key := "scratch:" + b.Role + ":" + h
+		sort.Strings(clash)
+		if len(clash) == 0 {
+			r.Ok(rule, key, pos, fmt.Sprintf("calls %v; no variable this helper sets before such a call and reads after it is assigned (non-locally) by the callee", uniq(callees)))
+		} else {
+			r.Bad(rule, key, pos, fmt.Sprintf("helper %s keeps state across a call that overwrites it: %s", h, strings.Join(uniq(clash), "; ")))
+		}
+	}
 }
